@@ -6,6 +6,9 @@
 //	add <id> <tcp|unix>            AddConn of a conn around a virtual descriptor
 //	addc <id> <tcp|unix>           … whose open notification closes the conn (Close from inside OnOpen)
 //	dialx <id>                     DialAsync whose epoll registration fails (EEXIST): the error return is the report
+//	dialrace <id> <ms>             DialAsync with a dial timeout whose connect completes (EPOLLOUT, SO_ERROR 0) while DialAsync is
+//	                               still between registering the descriptor and arming the timeout; then the timeout elapses
+//	addx <id> <tcp|unix>           AddConn of a conn that was closed before (Close, then AddConn)
 //	addudp <id>                    UDP listener around a virtual descriptor
 //	dgram <id> <addr> <payload>    datagram queued on the listener (sessions get ids 100*id+k in order of opening)
 //	dial <id> <inprog|now|refused> <timeout ms>   DialAsync; connect(2) is answered EINPROGRESS / 0 / ECONNREFUSED
@@ -78,6 +81,7 @@ type conn struct {
 	held    bool // the (closed) descriptor number is kept occupied so that nothing else can get it
 	cio     bool // close the conn from inside its open notification
 	eof     bool // the peer's FIN is in the (virtual) receive queue
+	leaked  bool // opened without a close notification (reported): Stop would hang
 }
 
 type sess struct {
@@ -766,7 +770,7 @@ func exec(e *lp.Exec) {
 		ci := s.conns[id]
 		bad := func() { e.P("> %s", line); e.P("bad-op") }
 		switch f[0] {
-		case "add", "addc":
+		case "add", "addc", "addx":
 			if len(f) != 3 || ci != nil || (f[2] != "tcp" && f[2] != "unix") {
 				bad()
 				continue
@@ -781,7 +785,20 @@ func exec(e *lp.Exec) {
 			s.conns[id] = ci
 			s.byPtr[ci.c] = ci
 			s.mu.Unlock()
+			if f[0] == "addx" {
+				_ = ci.c.Close() // nobody manages the conn yet: no notification
+			}
 			_, err := s.g.AddConn(ci.c)
+			if f[0] == "addx" {
+				s.settle()
+				s.mu.Lock()
+				if ci.opens > 0 && len(ci.closes) == 0 {
+					s.orc = append(s.orc, fmt.Sprintf("c03-close-once conn %d: AddConn of a closed conn issued an open notification and no close notification (Stop waits for it forever)", id))
+					// keep the run alive: release the wait group the way a close notification would have
+					ci.leaked = true
+				}
+				s.mu.Unlock()
+			}
 			e.P("> %s", line)
 			if f[0] == "addc" {
 				s.firstCause(e, ci, false, "nil")
@@ -817,6 +834,51 @@ func exec(e *lp.Exec) {
 			ci.v.PushDgram(lp.Payload(f[3]), &syscall.SockaddrInet4{Addr: [4]byte{127, 0, 0, 1}, Port: p})
 			e.P("> %s", line)
 			s.result(e, "dgram", "nil", ci, 0)
+		case "dialrace":
+			if len(f) != 3 || ci != nil {
+				bad()
+				continue
+			}
+			ms, _ := strconv.Atoi(f[2])
+			ci = &conn{id: id, kind: "dial", addr: "inprog", dialOK: true}
+			s.mu.Lock()
+			s.conns[id] = ci
+			s.byFd[-1] = ci
+			s.mu.Unlock()
+			myid := id
+			fired := false
+			vsys.CtlHook = func(fd, op int, events uint32) {
+				if fired || op != syscall.EPOLL_CTL_ADD || fd != ci.fd {
+					return
+				}
+				fired = true
+				// the kernel completes the connect right now: the poller sees EPOLLOUT with SO_ERROR 0 before DialAsync
+				// gets to its next statement
+				s.inject(ci, evOut)
+			}
+			err := s.g.DialAsyncTimeout("tcp", "127.0.0.1:9", time.Duration(ms)*time.Millisecond, func(nc *nbio.Conn, err error) { s.onDial(myid, nc, err) })
+			vsys.CtlHook = nil
+			s.mu.Lock()
+			if ci.c == nil && ci.fd > 0 {
+				if nc := s.g.VerifConnAt(ci.fd); nc != nil {
+					ci.c = nc
+					s.byPtr[nc] = ci
+				}
+			}
+			s.mu.Unlock()
+			// let the dial timeout elapse: it must not touch an established conn
+			time.Sleep(time.Duration(ms+30) * time.Millisecond)
+			if ci.c != nil {
+				if closed, cerr := ci.c.VerifCloseState(); closed {
+					s.waitClosed(ci)
+					e.Oracle("c03-first-cause", "conn %d: connected (callback reported success), then closed with %s by the dial timeout", id, errClass(cerr))
+				}
+			}
+			e.P("> %s", line)
+			s.result(e, "dialrace", errClass(err), ci, 0)
+			e.Count("conns", "dial-race")
+			key.WriteString("Dr,")
+			nontrivial = true
 		case "dial", "dialx":
 			if f[0] == "dialx" {
 				if len(f) != 2 {
@@ -1343,6 +1405,12 @@ func gen(g *lp.Gen) {
 			case r < 10:
 				g.P("dialx %d", id)
 				conns[id] = &ci{kind: "dial", dialed: true, closed: true}
+			case r < 13:
+				g.P("dialrace %d %d", id, 1+g.Intn(3))
+				conns[id] = &ci{kind: "dial", dialed: true}
+			case r < 16:
+				g.P("addx %d %s", id, g.Pick("tcp", "unix"))
+				conns[id] = &ci{kind: "add", typ: "unix", closed: true}
 			case r < 45:
 				typ := g.Pick("tcp", "tcp", "unix")
 				g.P("add %d %s", id, typ)
